@@ -278,7 +278,7 @@ def evaluate(ctx, cases):
         if problems or explor:
             ctx.violation('%s [fault %s, parser %s, XSD %s] %s' % ('; '.join((problems + explor)[:3]), c['fault'], c['parser'],
                                                                    c['version'], xml[:160]),
-                          dict(rep, theorem='C19_path_unique'))
+                          dict(rep, theorem='C19_path_unique' if problems else 'C19_single_fault_local / C19_fault_reported_at_node'))
         ctx.sample({'fault': c['fault'], 'damaged': D, 'errors': [(e['path'], e['reason']) for e in o['errors']][:3],
                     'xml': xml[:200]}, cap=5)
 
